@@ -54,4 +54,23 @@ def validateHistory (op : Op) (declared : String → Bool) : List Call → List 
 def acceptHistoryB (op : Op) (declared : String → Bool) (cs : List Call) : List Bool :=
   cs.map (fun c => acceptB c.opts op (c.env declared))
 
+/-! ### Calls for two operations of the same path item
+
+The document is shared state too: the path-level parameter list belongs to the path item, not to the operation. A step
+of a history is made either for the operation of the case or for its *sibling*: another operation of the same path item
+(same security) that declares no parameters and no body of its own, so that every path-level parameter is in effect for
+it, whatever the first operation overrides. -/
+
+def sibling (op : Op) : Op := { op with opParams := none, hasBody := false }
+
+structure Step where
+  onSibling : Bool
+  call      : Call
+
+def Step.op (op : Op) (s : Step) : Op := if s.onSibling then sibling op else op
+
+def validateSteps (op : Op) (declared : String → Bool) : List Step → List (Res × List AuthCall)
+  | [] => []
+  | s :: r => validateCall (s.op op) declared s.call :: validateSteps op declared r
+
 end KinModel.RequestHistory
